@@ -236,11 +236,23 @@ def run_unit(unit, ctx):
         if M.shape != (T.size,) or not np.array_equal(M, T.flatten()):
             R.add([K.V("mahalanobis:value", f"mahalanobis is not the flattened transform (shape {M.shape})", got=M.tolist(), expected=T.flatten().tolist(), **w)])
         # score
-        res = ad.score(X.copy(), explain_score=True)
-        total, parts = res
         nis = T.flatten()
-        bias = float(np.mean(np.sqrt(nis)) ** 2)
-        var = float(np.sum(nis))
+        with np.errstate(all="ignore"):
+            bias = float(np.mean(np.sqrt(nis)) ** 2)
+            var = float(np.sum(nis))
+            documented_finite = bool(np.isfinite(bias) and np.isfinite(var) and var > 0 and np.isfinite(1.0 / var + var))
+        try:
+            res = ad.score(X.copy(), explain_score=True)
+        except ValueError as e:
+            # score refuses, by design, a data set for which its own formula has no finite value (the summed NIS
+            # is 0 or overflows): that is the documented value being undefined, not a wrong score
+            if "not finite" in str(e) and not documented_finite:
+                R.stats.inc("score_refused_where_the_documented_value_is_not_finite")
+                res = (float("nan"), ())
+                var = float("nan")
+            else:
+                raise
+        total, parts = res
         mat = sum(v * v for v in defn["process_noise"].values()) + sum(
             v * v for d in defn["sensor_noises"].values() for v in d.values())
         R.stats.inc("score_checks")
